@@ -40,6 +40,7 @@ inductive Diag where
   | file (id : Nat)          -- `err_message!("{path}: {err}")` after a failed search
   | write (id : Nat)         -- `err_message!` after a failed (non-pipe) `bufwtr.print`
   | nothingSearched          -- `eprint_nothing_searched`
+  | config                   -- `err_message!` in `flags/config.rs::args` (the file cannot be read / a line cannot be parsed)
   | fatal                    -- `eprintln_locked!("{:#}", err)` in `main`
   deriving Repr, DecidableEq, Inhabited
 
@@ -61,6 +62,9 @@ structure Cfg where
   implicitPath : Bool := false      -- `args.has_implicit_path()`
   matchesPossible : Bool := true    -- `args.matches_possible()`
   setupOk : Bool := true            -- `walk_builder()?`, `matcher()?`, `searcher()?`, `search_worker()?`
+  configErr : Bool := false         -- `flags::config::args()` reported that the configuration file cannot be read / parsed
+  flush : WriteRes := .ok           -- result of the explicit `flush()` of stdout that ends `search`, `files`, the print
+                                    -- thread of `files_parallel` and `types` (since f052aea)
   deriving Repr, DecidableEq, Inhabited
 
 /-- `hiargs.rs`: `quit_after_match = stats.is_none() && low.quiet`. -/
@@ -85,6 +89,23 @@ inductive RunRes where
   | errPipe          -- an error whose chain contains an `io::Error` of kind `BrokenPipe`
   | errOther
   deriving Repr, DecidableEq, Inhabited
+
+/-- The state `run` starts from.  `parse_low` reads the configuration file after the command line has been
+parsed (so `--no-messages` given there already applies) and after the special modes have returned; what
+`config::args()` cannot read or parse is reported through `err_message!` (since 379b616; `message!` before,
+which left the error flag alone). -/
+def initSt (c : Cfg) : St :=
+  if c.configErr then errMessage c {} .config else {}
+
+/-- `stdout.flush()?` as the last statement of a driver that returns `Ok(matched)` (since f052aea; before, the
+last buffered bytes were written when the writer was dropped and an error at that point was lost).  The `?`
+turns an error into the driver's `Err`: `main` exits quietly for a broken pipe and with a diagnostic and
+status 2 for anything else. -/
+def finalFlush (c : Cfg) (st : St) (matched : Bool) : St × RunRes :=
+  match c.flush with
+  | .ok => (st, .ok matched)
+  | .pipe => (st, .errPipe)
+  | .err => (st, .errOther)
 
 /-! ### `search.rs`: what `SearchWorker::search` returns to the driver loop -/
 
@@ -122,7 +143,7 @@ def search (c : Cfg) (items : List Item) (st : St) : St × RunRes :=
   let (st, piped) := searchLoop c items st
   if piped then (st, .errPipe) else
   let st := if c.implicitPath && !st.searched then errMessage c st .nothingSearched else st
-  (st, .ok st.matched)
+  finalFlush c st st.matched
 
 /-! ### `search_parallel` -/
 
@@ -183,7 +204,7 @@ def filesLoop (c : Cfg) : List Item → St → St × Option WriteRes
 def files (c : Cfg) (items : List Item) (st : St) : St × RunRes :=
   if !c.setupOk then (st, .errOther) else
   match filesLoop c items st with
-  | (st, none) => (st, .ok st.matched)
+  | (st, none) => finalFlush c st st.matched
   | (st, some .pipe) => (st, .errPipe)
   | (st, some _) => (st, .errOther)
 
@@ -212,7 +233,7 @@ def filesParallel (c : Cfg) (ran : List Item) (st : St) : St × RunRes :=
   let (o, r) := printThread sent
   let st := { st with out := st.out ++ o }
   match r with
-  | .ok => (st, .ok st.matched)
+  | .ok => finalFlush c st st.matched   -- the print thread ends with `stdout.flush()`
   | .pipe => (st, .errPipe)         -- `return Err(err.into())` for every error of the print thread (since 6599e1f)
   | .err => (st, .errOther)
 
@@ -237,11 +258,11 @@ def exitCode (matched quiet errored : Bool) : Nat :=
 
 /-- `run`: dispatch on the mode and thread count. -/
 def run (c : Cfg) (p : Parse) (items : List Item) : St × Option RunRes :=
-  let st : St := {}
   match p with
-  | .err => (st, some .errOther)
-  | .special => (st, none)                       -- help / version: exit 0 (a PCRE2-less `--pcre2-version`: 1; not modelled)
+  | .err => (initSt c, some .errOther)           -- (a command line error is found before the configuration file is read: `configErr = false` then)
+  | .special => ({}, none)                       -- help / version / type list, before any configuration file is read
   | .ok =>
+    let st := initSt c
     let (st, r) :=
       match c.mode with
       | .search =>
@@ -253,7 +274,12 @@ def run (c : Cfg) (p : Parse) (items : List Item) : St × Option RunRes :=
 /-- `main`. -/
 def main (c : Cfg) (p : Parse) (items : List Item) : Final :=
   match run c p items with
-  | (st, none) => ⟨0, st.diags, st.out⟩
+  | (st, none) =>
+    -- a special mode: exit 0 (a PCRE2-less `--pcre2-version`: 1; not modelled); every write and the final flush
+    -- are `?`-propagated, a broken pipe ends quietly
+    match c.flush with
+    | .err => ⟨exitFatal, st.diags ++ [.fatal], st.out⟩
+    | _ => ⟨0, st.diags, st.out⟩
   | (st, some (.ok matched)) => ⟨exitCode matched c.quiet st.errored, st.diags, st.out⟩
   | (st, some .errPipe) => ⟨exitBrokenPipe, st.diags, st.out⟩
   | (st, some .errOther) => ⟨exitFatal, st.diags ++ [.fatal], st.out⟩
@@ -296,7 +322,7 @@ def parStats : List Item → Stats → Stats
 def statsPrinted (c : Cfg) (ran : List Item) : Option Stats :=
   if !c.stats || c.mode != .search || !c.matchesPossible || !c.setupOk then none
   else if !c.parallel then searchStats c ran false {}
-  else if (parSearchLoop c ran {}).1.brokenPipe then none
+  else if (parSearchLoop c ran (initSt c)).1.brokenPipe then none
   else some (parStats ran {})
 
 end RgVerif.Exit
